@@ -269,15 +269,18 @@ def run(ctx):
     # (i)
     from mc.runner import pmap
 
-    prods = [o.name for o in O.alphabet(2) if o.inp in ("df", "any")]
+    # tier-3 producers (expression classes with projection rules of their own: cov/corr, as-of / semi / broadcast joins, resample,
+    # groupby windows, aligned operations ...) take part too; in the quick tier with the two sharing patterns that decide most rules
+    prods = [o.name for o in O.alphabet(3) if o.inp in ("df", "any")]
     colres = pmap(producer_columns, prods, chunk=8)
     cases = []
     for name, cols in colres:
         if not cols or len(cols) > 8:
             continue
         cols = cols[:5]
+        shares = SHARE if (O.OPS[name].tier <= 2 or not quick) else SHARE[:2]
         for kind, s in selections(cols, 2 if quick else 3):
-            for share in SHARE:
+            for share in shares:
                 cases.append({"mode": "sel", "producer": name, "selkind": kind, "sel": s, "share": share})
     res2 = ctx.map(evaluate, cases, chunk=64)
     ctx.transitions += len(cases)
